@@ -64,7 +64,7 @@ theorem cellData_eq (f : Fld) (nx ny nz : Nat) (h : WF f nx ny nz) :
       intro b hb
       rcases List.mem_append.mp hb with hb | hb
       · simp only [addArray, List.mem_singleton] at hb
-        rw [hb]; decide
+        rw [hb]; simp [normVArr, fieldVArr, validVArr]
       · obtain ⟨l, hl, rfl⟩ := List.mem_map.mp hb
         intro hn
         have : l = "field" := hn
@@ -74,13 +74,13 @@ theorem cellData_eq (f : Fld) (nx ny nz : Nat) (h : WF f nx ny nz) :
       rcases List.mem_append.mp hb with hb | hb
       · rcases List.mem_append.mp hb with hb | hb
         · simp only [addArray, List.mem_singleton] at hb
-          rw [hb]; decide
+          rw [hb]; simp [normVArr, fieldVArr, validVArr]
         · obtain ⟨l, hl, rfl⟩ := List.mem_map.mp hb
           intro hn
           have : l = "valid" := hn
           exact h3 (this ▸ hl)
       · simp only [List.mem_singleton] at hb
-        rw [hb]; decide)]
+        rw [hb]; simp [normVArr, fieldVArr, validVArr])]
     simp [addArray]
   · simp only [hnv, if_false]
     rfl
